@@ -193,6 +193,39 @@ pub fn gen(rng: &mut Rng, quick: bool, st: &mut Stats) -> Vec<String> {
         // direct oracle
         cases.push(format!("chk_dir_roundtrip {} {et}", u8::from(k % 4 == 0 || !quick || es.len() > 3000)));
     }
+    // runs that end on the last tile of zoom 31 (the top of the tile-id space)
+    {
+        const LAST: u64 = 6_148_914_691_236_517_204;
+        for es in [
+            vec![Entry { tile_id: LAST, offset: 0, length: 9, run_length: 1 }],
+            vec![Entry { tile_id: 7, offset: 0, length: 3, run_length: 2 }, Entry { tile_id: LAST - 9, offset: 3, length: 5, run_length: 10 }],
+            vec![Entry { tile_id: LAST - 1, offset: 10, length: 1, run_length: 1 }, Entry { tile_id: LAST, offset: 11, length: 1, run_length: 1 }],
+        ] {
+            cases.push(format!("chk_dir_roundtrip 1 {}", entries_tok(&es)));
+            for mode in ["sync", "async"] {
+                cases.push(format!("dir_enc {mode} none {}", entries_tok(&es)));
+                cases.push(format!("dir_dec {mode} none {}", hex_bytes(&spec_encode_dir(&es))));
+            }
+            st.bump("lists_ending_on_the_last_tile_id");
+        }
+    }
+    // directory sizes whose compressed length sweeps across 4096 and 8192 bytes (staging buffers of those sizes)
+    for &c in &ALL_COMP[1..] {
+        for limit in [4096usize, 8192] {
+            let mk = |n: usize| -> Vec<Entry> { (0..n).map(|k| Entry { tile_id: 5 + 3 * k as u64 + (k as u64 * k as u64 % 7), offset: 900 * k as u64, length: 900 - (k % 13) as u32, run_length: 1 + (k % 3) as u32 }).collect() };
+            let size = |n: usize| dir_enc(false, c, &mk(n)).map(|b| b.len()).unwrap_or(0);
+            let (mut lo, mut hi) = (1usize, 40_000usize);
+            while lo + 1 < hi {
+                let mid = (lo + hi) / 2;
+                if size(mid) < limit { lo = mid } else { hi = mid }
+            }
+            let span = if quick { 12 } else { 60 };
+            for n in lo.saturating_sub(span)..=lo + span {
+                cases.push(format!("chk_dir_codec_exact {} {}", comp_tok(c), entries_tok(&mk(n))));
+            }
+            st.bump("compressed_sizes_around_buffer_limits");
+        }
+    }
     // directories of more than 2^17 entries, all contiguous (the shorthand R<n> is expanded inside the worker)
     for n in [131_071u64, 131_073, 140_000, 262_145] {
         cases.push(format!("chk_dir_roundtrip {} R{n:x}", u8::from(n == 131_073)));
@@ -203,6 +236,25 @@ pub fn gen(rng: &mut Rng, quick: bool, st: &mut Stats) -> Vec<String> {
 
 pub fn run_chk(toks: &[&str]) -> Option<String> {
     match toks {
+        ["chk_dir_codec_exact", c, es] => {
+            // the compressed directory, decoded to its very end by the library and by the upstream decoder, is the
+            // specification's encoding (sync and async writers)
+            let (c, es) = (parse_comp(c), parse_entries(es));
+            Some(crate::ops::guard_chk(|| {
+                let spec = spec_encode_dir(&es);
+                for asy in [false, true] {
+                    let enc = dir_enc(asy, c, &es).map_err(|e| format!("encode failed: {e}"))?;
+                    let plain = pmtiles2::util::decompress_all(c, &enc).map_err(|e| format!("the {} bytes of a {} directory written by the {} writer do not decompress to the end: {e}", enc.len(), comp_tok(c), if asy { "async" } else { "sync" }))?;
+                    if plain != spec {
+                        return Err(format!("a {} directory of {} compressed bytes decompresses to other bytes than the specification's encoding", comp_tok(c), enc.len()));
+                    }
+                    if crate::spec::codec_decompress(crate::ops2::comp_code(c) as u8, &enc)? != spec {
+                        return Err("the upstream decoder reads other bytes".into());
+                    }
+                }
+                Ok(())
+            }))
+        }
         ["chk_dir_roundtrip", all, es] => {
             let es = parse_entries(es);
             Some(crate::ops::guard_chk(|| chk_dir_roundtrip(&es, *all == "1")))
